@@ -1,5 +1,5 @@
 (** src/lib.rs : derive_input_handler *)
-From Educe.Model Require Export Expand_PartialEq Expand_Eq Expand_Hash Expand_Clone Expand_Copy.
+From Educe.Model Require Export Expand_PartialEq Expand_Eq Expand_Hash Expand_Clone Expand_Copy Expand_Debug.
 
 Definition tmap := list (trait * list meta).
 
@@ -39,7 +39,7 @@ Definition not_modelled (what : string) : handler :=
 
 (** the handler of each single-meta trait, in the fixed order of lib.rs *)
 Definition handlers : list (trait * handler) :=
-  [(TDebug, not_modelled "Debug");
+  [(TDebug, expand_debug);
    (TClone, expand_clone);
    (TCopy, expand_copy);
    (TPartialEq, expand_partial_eq);
